@@ -18,6 +18,14 @@ ASSUME = ["table entries are read back from the files by the harness with the ta
 def run(ctx, kinds):
     tlc_mc(ctx, "LSM.tla", "LSM_quick.cfg" if ctx.quick else "LSM_thorough.cfg", timeout=2400,
            label="LSM.tla: ReadOK + C06 laws on every reachable version")
+    if ctx.pid == "C07":
+        tlc_mc(ctx, "RefLoop.tla", "RefLoop_quick.cfg" if ctx.quick else "RefLoop_thorough.cfg", timeout=1800,
+               label="RefLoop.tla (session.refLoop transcribed): NoPrematureRemove, NoGarbageWhenSettled")
+        if not ctx.quick:
+            r = tlc_mc(ctx, "RefLoop.tla", "RefLoop_ascoded_F11.cfg", timeout=600, expect_violation=True,
+                       label="RefLoop.tla with the first-commit double count as it was coded (must be violated)")
+            if not r["violated"]:
+                raise HarnessError("RefLoop.tla no longer exposes F11")
     exe = build("seqdb")
     nprog, nsteps = (24, 700) if ctx.quick else (240, 2500)
     seeds = [ctx.seed * 1000 + i for i in range(nprog)]
@@ -39,7 +47,7 @@ def run(ctx, kinds):
         raise HarnessError("drivers did not reach every compaction kind: %s" % comp)
     other = 0
     pending = sums
-    for _round in range(30):
+    for _round in range(5):
         fails = validate_traces(ctx, "LSMTrace.tla", "LSMTrace.cfg", pending, chunk=4)
         pending = []
         for t, r in fails:
